@@ -4,28 +4,33 @@ import sys, os, subprocess, json
 VERIF = os.path.dirname(os.path.dirname(os.path.abspath(__file__)))
 man = json.load(open(os.path.join(VERIF, 'MANIFEST.json')))
 props = [c['property_id'] for c in man['checks']]
+# work on a private worktree of /repo's HEAD so that /repo itself is never touched
+REPO = '/var/tmp/vp-seedrepo-%d' % os.getpid()
+subprocess.run(['git', '-C', '/repo', 'worktree', 'add', '--detach', REPO], capture_output=True)
+import atexit
+atexit.register(lambda: subprocess.run(['git', '-C', '/repo', 'worktree', 'remove', '--force', REPO], capture_output=True))
 for d in sys.argv[1:]:
     d = d.rstrip('/')
     pf = os.path.join(d, 'patch.diff')
-    if subprocess.run(['git', '-C', '/repo', 'status', '--porcelain', '--untracked-files=no'], capture_output=True, text=True).stdout.strip():
+    if subprocess.run(['git', '-C', REPO, 'status', '--porcelain', '--untracked-files=no'], capture_output=True, text=True).stdout.strip():
         print('REPO DIRTY, abort'); sys.exit(3)
-    r = subprocess.run(['git', '-C', '/repo', 'apply', '--3way', pf], capture_output=True, text=True)
+    r = subprocess.run(['git', '-C', REPO, 'apply', '--3way', pf], capture_output=True, text=True)
     if r.returncode != 0:
-        r = subprocess.run(['git', '-C', '/repo', 'apply', pf], capture_output=True, text=True)
+        r = subprocess.run(['git', '-C', REPO, 'apply', pf], capture_output=True, text=True)
     if r.returncode != 0:
         print('%-8s APPLY-FAILED %s' % (os.path.basename(d), r.stderr.strip()[:100]))
-        subprocess.run(['git', '-C', '/repo', 'reset', '-q', '--hard'])
+        subprocess.run(['git', '-C', REPO, 'reset', '-q', '--hard'])
         continue
     res = {}
     try:
         for p in props:
-            rr = subprocess.run([os.path.join(VERIF, 'check'), p], capture_output=True, text=True, cwd=VERIF)
+            rr = subprocess.run([os.path.join(VERIF, 'check'), p, '--repo', REPO], capture_output=True, text=True, cwd=VERIF)
             res[p] = rr.returncode
             if rr.returncode != 0:
                 lines = [l for l in rr.stdout.split('\n') if l.startswith(('VIOLATION', 'UNDECIDED'))][:3]
                 res[p + '_why'] = lines
     finally:
-        subprocess.run(['git', '-C', '/repo', 'reset', '-q', '--hard'])
+        subprocess.run(['git', '-C', REPO, 'reset', '-q', '--hard'])
     alarms = [p for p in props if res.get(p) == 1]
     und = [p for p in props if res.get(p) == 2]
     target = os.path.basename(d).split('-')[0]
